@@ -564,11 +564,11 @@ def check_C20(tier):
     from common import PY, HARNESS, REPO, scratch
     import subprocess
     rep = Report('C20', tier)
-    variants = ['renamed_everything', 'insert_level'] if tier == 'quick' else ['rename_keys', 'rename_types', 'separators', 'insert_level', 'renamed_everything']
+    variants = ['all_changes'] if tier == 'quick' else ['rename_keys', 'rename_types', 'separators', 'insert_level', 'leaf_extrapolation', 'renamed_everything', 'all_changes']
     subs = [('C01', K.check_C01, 'quick'), ('C02', check_C02, 'quick'), ('C04', check_C04, 'quick'), ('C05', check_C05, 'quick'),
-            ('C06', check_C06, 'quick'), ('C07', check_C07, 'c20'), ('C08', check_C08, 'c20'), ('C11', check_C11, 'quick')]
+            ('C06', check_C06, 'quick'), ('C07', check_C07, 'c20'), ('C08', check_C08, 'c20')]
     if tier == 'thorough':
-        subs = [(a, b, 'quick') for a, b, _ in subs] + [('C03', check_C03, 'quick')]
+        subs = [(a, b, 'quick') for a, b, _ in subs] + [('C03', check_C03, 'quick'), ('C11', check_C11, 'quick')]
     Report.redirect = rep
     try:
         for v in variants:
